@@ -74,7 +74,7 @@ Proof.
   - intros [|[]|p]; cbn; congruence.
   - reflexivity.
   - intros [|[]|p] [|[]|q]; cbn; try congruence.
-    intros _ _ H. apply Qle_bool_iff in H.
+    intros _ _ H _. apply Qle_bool_iff in H.
     unfold qzero. replace (Qeq_bool 2 0) with false by reflexivity. cbn.
     split; apply Qle_bool_iff; unfold Qdiv; change (/ 2)%Q with (1 # 2)%Q; lra.
 Qed.
